@@ -404,4 +404,9 @@ theorem pipeline_skeleton_in_source : BstreamVerif.Facts.fileSrc.orderedPipeline
 
 end Pipeline
 
+/-- **tie by translation**: `lowBoundary` of util.go, translated from the source on every run (`Facts.Gen`), is the
+    model's `lowBoundary` -/
+theorem lowBoundary_translated (i m : Nat) :
+    BstreamVerif.Facts.Gen.lowBoundary i m = BstreamVerif.FileSourceSeq.lowBoundary i m := rfl
+
 end BstreamVerif.Props.C10
